@@ -28,6 +28,9 @@ CHECKS = {
  "C10": ("E2-bfs(+E3 env)", "explicit-state exploration of call histories on one real instance and one target variable, with sync.Pool's answer enumerated as an environment choice by the scheduler shim; reference merge model as oracle",
    "For 28 re-use-sensitive types (x2 configurations): every history (prior target value p0; 2 or 3 Marshal+Unmarshal-into-the-same-target calls, each followed by an Unmarshal into a fresh variable) over the boundary values, priors also with aliased pointers, every sync.Pool reuse|fresh answer sequence. After every call the target must be one of ref.Merge(prior, v) and the fresh decode must equal a virgin instance's decode (differential), and Marshal inside the history must still produce the reference bytes.",
    "Trusted: ref.Merge (weakest reading where the statement is silent), the Pool shim (LIFO reuse or New). Depth 3 in the quick tier uses the reduced value set.", "§7 C10"),
+ "C19": ("E2-bfs+E3-sched(+E5 race)", "explicit-state BFS over decode histories keyed on the real intern tables' contents, plus scheduler-controlled interleaving enumeration of concurrent decoders sharing the tables",
+   "BFS: every history of <=4 (thorough 6) decode operations over the string alphabet (new, repeated, empty, shared prefix, binary, 128-byte; string and null.String fields; two independent tables per type), states de-duplicated on the tables' contents read reflectively from the real codec; in every state the interned result equals the plain twin's, all strings returned so far are unchanged after the caller's buffer is overwritten, no table entry or result lies inside a caller buffer (address ranges), earlier table snapshots are untouched (copy-on-write) and the encoding equals the plain one. Schedules: 12 scenarios of 2-3 goroutines through shared tables, all schedules within the completed preemption bound, sequential-specification oracle.",
+   "Trusted: the reflective table locator (layout change => machinery error), the scheduler as for C07. The -race pass is complementary.", "§7 C19"),
 }
 NOT_YET = "check not built yet (in progress); see DESIGN.md §7 for the planned model-checking design"
 
